@@ -236,9 +236,17 @@ def alloc_replay(nm, kind):
         opk = "script"
     else:
         return None
-    op = {"op": "decode", "kind": opk, "hex": raw.hex()}
-    nat = native_decode(op)
-    rep = any(("panic" in v or "abort" in v) for v in nat.values())
+    raws = [raw]
+    if nm == "transaction_from_bytes" and kind == "alloc_capacity":
+        # the declared count may be the input count or, after a complete (empty or one-element) input section, the output count
+        one_in = bytes(32) + bytes(4) + bytes([0]) + bytes(4)
+        raws += [bytes([1, 0, 0, 0, 0]) + huge, bytes([1, 0, 0, 0, 1]) + one_in + huge]
+    for raw in raws:
+        op = {"op": "decode", "kind": opk, "hex": raw.hex()}
+        nat = native_decode(op)
+        rep = any(("panic" in v or "abort" in v) for v in nat.values())
+        if rep:
+            break
     return {"message": f"{nm}: allocates a buffer of a size declared inside the input ({'2^32-1' if opk == 'script' else '2^40'}) before checking that the input holds that many bytes", "request": {"tx": {"version": 1, "locktime": 0, "inputs": [], "outputs": []}, "ops": [op]},
             "op_index": 0, "expected": "Err without allocating", "native": nat, "reproduced": rep}
 
